@@ -47,6 +47,7 @@ type walkResult struct {
 	Panic    string     `json:"panic,omitempty"`
 	Unknown  []string   `json:"unknown_edges,omitempty"` // edges with no id in the tables
 	Twice    int        `json:"visited_twice"`
+	Shared   int        `json:"shared"` // node pointers reachable through more than one path (DAG)
 	Pruned   [][]int    `json:"pruned,omitempty"` // Pruned[k]: ids visited when the callback refuses types with id%3==k
 }
 
@@ -54,6 +55,7 @@ type walkResult struct {
 func inspectTree(root ast.Node, res *walkResult) {
 	initIDs()
 	rs := reachable(root)
+	res.Shared = lastReachShared
 	ptrIdx := map[interface{}]int{}
 	for i, r := range rs {
 		if r.Kind == "ptr" {
